@@ -58,6 +58,9 @@ inductive Stmt
   | jmp (target : Nat)
   | send (ch src : Nat)
   | recv (dst ok ch : Nat)
+  /-- `for v := range ch { … }`: one iteration test — receive into `dst` and enter the body (next pc), or leave to
+      `target` when the channel is closed and drained; the body ends with a jump back to this statement -/
+  | range (dst ch : Nat) (target : Nat)
   | close (ch : Nat)
   | select (cases : List Case)
   | print (src : Nat)
@@ -73,6 +76,7 @@ def Stmt.gen : Stmt → String
   | .jmp .. => "nop"
   | .send .. => "send"
   | .recv .. => "recv2"
+  | .range .. => "rangeChan"
   | .close .. => "genBuiltinDeferWrapper"
   | .select .. => "_select"
   | .print .. => "callBin"
@@ -139,6 +143,7 @@ def operands (s : Stmt) (a : Act) : Ops :=
   | .jmp _ => ⟨[], []⟩
   | .send ch src => ⟨[a.chans[ch]?], [a.slot src]⟩
   | .recv _ _ ch => ⟨[a.chans[ch]?], []⟩
+  | .range _ ch _ => ⟨[a.chans[ch]?], []⟩
   | .close ch => ⟨[a.chans[ch]?], []⟩
   | .select cs => ⟨cs.map (fun c => a.chans[c.ch]?), cs.map (fun c => a.slot c.slot)⟩
   | .print src => ⟨[], [a.slot src]⟩
@@ -174,6 +179,13 @@ def doRecv (h : ChanId → Chan) (a : Act) (id : ChanId) (dst : Nat) (ok : Optio
       some ({ a with slots := s2, pc := next }, none)
     else none
 
+/-- one iteration test of `range` over channel `id` -/
+def doRange (h : ChanId → Chan) (a : Act) (id : ChanId) (dst : Nat) (body exit : Nat) :
+    Option (Act × Option (ChanId × Chan)) :=
+  match (h id).buf with
+  | v :: rest => some ({ a with slots := setSlot a.slots dst v, pc := body }, some (id, { h id with buf := rest }))
+  | [] => if (h id).closed then some ({ a with pc := exit }, none) else none
+
 def doSend (h : ChanId → Chan) (a : Act) (id : ChanId) (v : Val) (next : Nat) :
     Option (Act × Option (ChanId × Chan)) :=
   if (h id).buf.length < (h id).cap && !(h id).closed then
@@ -197,6 +209,10 @@ def execR (s : Stmt) (ops : Ops) (a : Act) (h : ChanId → Chan) (choice : Nat) 
   | .recv dst ok _ =>
     match ops.ch 0 with
     | some id => doRecv h a id dst (some ok) (a.pc + 1)
+    | none => none
+  | .range dst _ t =>
+    match ops.ch 0 with
+    | some id => doRange h a id dst (a.pc + 1) t
     | none => none
   | .close _ =>
     match ops.ch 0 with
